@@ -279,7 +279,7 @@ def _run_unit(unit):
     from . import extract
     import signal
     t0 = time.time()
-    budget = int(os.environ.get("PVC_UNIT_TIMEOUT", "0")) or (900 if (_CTX and _CTX.tier == "quick") else 5400)
+    budget = int(os.environ.get("PVC_UNIT_TIMEOUT", "0")) or (420 if (_CTX and _CTX.tier == "quick") else 5400)
     try:
         signal.signal(signal.SIGALRM, _alarm)
         signal.alarm(budget)
@@ -289,7 +289,10 @@ def _run_unit(unit):
         return _run_unit_inner(unit)
     except UnitTimeout:
         r = UnitResult(unit.name, unit.kind)
-        r.unsupported.append(f"unit exceeded its time budget of {budget}s (solver or path explosion): undecided")
+        # an obligation record stands for the unit, so that the check can try the unit's native replayer / search
+        r.obligations.append(ObRec(f"{unit.name}/unit-not-decided-in-time", "timeout", "unknown", time.time() - t0,
+                                   f"unit exceeded its time budget of {budget}s (solver or path explosion)", None, "none",
+                                   unit.name))
         r.wall = time.time() - t0
         return r
     finally:
@@ -312,7 +315,7 @@ def _run_unit_inner(unit):
                 extract.clear_overrides()
         return r
     except BaseException as e:  # engine crash: exit 3 material, never a verdict
-        if isinstance(e, KeyboardInterrupt):
+        if isinstance(e, (KeyboardInterrupt, UnitTimeout)):
             raise
         r = UnitResult(unit.name, unit.kind)
         r.error = "".join(traceback.format_exception(type(e), e, e.__traceback__))[-3000:]
@@ -320,8 +323,69 @@ def _run_unit_inner(unit):
         return r
 
 
-def run_units(units, tier, seed, jobs=None):
-    """run units in a process pool; returns list of UnitResult in unit order"""
+def _cache_path(unit, tier, digest):
+    import hashlib
+    verif_dir = os.path.dirname(os.path.dirname(os.path.abspath(__file__)))
+    key = hashlib.sha256(f"{unit.name}|{getattr(unit, 'args', ())!r}|{tier}".encode()).hexdigest()[:24]
+    return os.path.join(verif_dir, ".cache", "units", digest[:32], key + ".pkl")
+
+
+def run_units(units, tier, seed, jobs=None, digest=None):
+    """run units in a process pool; returns list of UnitResult in unit order.
+    Units marked `cacheable` (instance units: pure functions of the sources under analysis, the engine and the sidecar)
+    are looked up in a content-addressed cache keyed by the sha256 of all those files, the unit's name/arguments and
+    the tier; a hit is the result of the identical computation on identical inputs by an earlier check of this tree."""
+    import multiprocessing as mp
+    import pickle
+    verif_dir = os.path.dirname(os.path.dirname(os.path.abspath(__file__)))
+    cached = {}
+    if digest and not os.environ.get("PVC_NO_CACHE"):
+        for i, u in enumerate(units):
+            if getattr(u, "cacheable", False) and not getattr(u, "canary", None):
+                pth = _cache_path(u, tier, digest)
+                if os.path.exists(pth):
+                    try:
+                        with open(pth, "rb") as f:
+                            r = pickle.load(f)
+                        r.info["cache_hit"] = True
+                        cached[i] = r
+                    except Exception:  # noqa
+                        pass
+    if cached:
+        todo = [i for i in range(len(units)) if i not in cached]
+        sub = run_units([units[i] for i in todo], tier, seed, jobs, digest=None)
+        out = [None] * len(units)
+        for i, r in cached.items():
+            out[i] = r
+        for i, r in zip(todo, sub):
+            out[i] = r
+            _store(units[i], r, tier, digest)
+        return out
+    out = _run_units_nocache(units, tier, seed, jobs)
+    if digest and not os.environ.get("PVC_NO_CACHE"):
+        for u, r in zip(units, out):
+            _store(u, r, tier, digest)
+    return out
+
+
+def _store(u, r, tier, digest):
+    import pickle
+    if not (digest and getattr(u, "cacheable", False)) or getattr(u, "canary", None) or r.error or r.info.get("cache_hit"):
+        return
+    if any("time budget" in (o.detail or "") for o in r.obligations):
+        return
+    pth = _cache_path(u, tier, digest)
+    try:
+        os.makedirs(os.path.dirname(pth), exist_ok=True)
+        tmp = pth + f".{os.getpid()}.tmp"
+        with open(tmp, "wb") as f:
+            pickle.dump(r, f)
+        os.replace(tmp, pth)
+    except Exception:  # noqa
+        pass
+
+
+def _run_units_nocache(units, tier, seed, jobs=None):
     import multiprocessing as mp
     verif_dir = os.path.dirname(os.path.dirname(os.path.abspath(__file__)))
     jobs = jobs or int(os.environ.get("PVC_JOBS", "0")) or min(16, os.cpu_count() or 1)
